@@ -9,7 +9,10 @@ def evaluate(ck, data, rules, docg):
     for o in T.runs(data):
         for x in o.get("c18", []):
             n += 1
-            ck.violation("%s:%s" % ("index-stale" if "index" in x["what"] else "toi-not-a-slice", x["rule"]), "%s: when %s obtained its tokens of interest: %s" % (T.tag(o), x["rule"], x["what"]), T.rep(o, None, rule=x["rule"], detail=x))
+            if "index" in x["what"]:
+                ck.violation("index-stale-after:%s" % (x.get("after") or "parse"), "%s: when %s obtained its tokens of interest the index differed from a recompute; the last rule that changed the token list was %s" % (T.tag(o), x["rule"], x.get("after")), T.rep(o, None, rule=x["rule"], detail=x))
+            else:
+                ck.violation("toi-not-a-slice:%s" % x["rule"], "%s: when %s obtained its tokens of interest: %s" % (T.tag(o), x["rule"], x["what"]), T.rep(o, None, rule=x["rule"], detail=x))
     ck.sample({"c18_probe_findings": n})
     return {"probe_findings": n}
 
